@@ -12,6 +12,17 @@ from exactly_lib.util.simple_textstruct.structure import LineElement
 
 class ExistingExecutableFileValidator(PathDdvValidatorBase):
     def _validate_path(self, path: DescribedPath) -> Optional[TextRenderer]:
+        try:
+            return self._validate_accessible_path(path)
+        except OSError as ex:
+            # E.g. a file name too long for the OS
+            return path_err_msgs.line_header__primitive(
+                ex.strerror or 'File cannot be accessed',
+                path.describer,
+            )
+
+    @staticmethod
+    def _validate_accessible_path(path: DescribedPath) -> Optional[TextRenderer]:
         file_path = path.primitive
         if not file_path.exists():
             return path_err_msgs.line_header__primitive(
